@@ -6,6 +6,7 @@
    the all-zero digest, because that configuration uses the zero digest as its empty value). *)
 From Coq Require Import List Bool NArith.
 From Akd Require Import Bits NodeLabel NodeLabelFacts Hashing Tree TreeFacts HashingFacts TreeComplete.
+From Akd Require SpecFacts NonMemComplete.
 Import ListNotations.
 Open Scope N_scope.
 
@@ -57,3 +58,16 @@ Print Assumptions C05_gen_membership_verifies.
 
 (* Why the child-prefix check (fix F1) is needed: without it the D1 shape is accepted.  The
    witness is evaluated with a transparent "hash" (concatenation) so that it runs inside Coq. *)
+
+(* Completeness (non-membership side): on a canonical tree whose leaves carry 256-bit labels - which
+   is what the directory's tree always is (C01) - the proof the honest prover returns for an absent
+   256-bit label verifies, for every configuration whose empty label is not canonical and every
+   hash function. *)
+Theorem C05_gen_nonmembership_verifies : forall cfg, canonical (c_empty_label cfg) = false ->
+  forall x, NodeLabelFacts.WF x -> canonical x = true -> length (bits_of x) = 256%nat ->
+  forall t, SpecFacts.canon_root t ->
+  (forall y, In y (leaves t) -> length (bits_of (lf_label y)) = 256%nat) ->
+  (forall y, In y (leaves t) -> lf_label y <> x) ->
+  verify_nonmembership cfg (root_hash cfg true t) (get_non_membership_proof cfg t x) = true.
+Proof. exact NonMemComplete.nonmembership_complete. Qed.
+Print Assumptions C05_gen_nonmembership_verifies.
